@@ -184,6 +184,8 @@ def forward_rule(run, fh, rid):
     for b in fh.bodies:
         if b.kind != "Fn" or not b.npath.startswith("syscall::unix::"):
             continue
+        if not str(b.abi).startswith("C"):
+            continue        # a Rust-ABI helper nested in the module (the symbol resolver): not an interposed symbol
         nm = b.npath.rsplit("::", 1)[1]
         run.fn(b)
         cfg = Cfg(b)
